@@ -32,7 +32,11 @@ _env = None
 
 def _make():
     from idpyoidc.server.oidc.token import Token
-    return opbase.make_op(more_endpoints={"token": {"path": "token", "class": Token, "kwargs": {"client_authn_method": ENDPOINTS["token"]}}})
+    H = "idpyoidc.server.%s.token_helper.%s"
+    helpers = {"authorization_code": {"class": H % ("oidc", "access_token.AccessTokenHelper")}, "refresh_token": {"class": H % ("oidc", "refresh_token.RefreshTokenHelper")},
+               "client_credentials": {"class": H % ("oauth2", "client_credentials.ClientCredentials")}}
+    return opbase.make_op(more_endpoints={"token": {"path": "token", "class": Token, "kwargs": {"client_authn_method": ENDPOINTS["token"],
+                                                                                                 "grant_types_helpers": helpers}}})
 
 
 class Env:
@@ -112,6 +116,8 @@ def gen_request(rng, jtis):
     else:
         r["basic"] = {"kind": "right"}
         r["post"] = {"kind": rng.choice(SECRET_KINDS), "id": rng.choice([cid, "cA"])}
+    if ep == "token" and rng.random() < 0.3:
+        r["cc"] = True       # a client-credentials request: the whole endpoint runs, the question is whether a token comes out
     if rng.random() < 0.12:
         r["authflag"] = rng.choice(["true", "1", True])      # a request-supplied parameter named like the provider's own marker
     if r["post"] is None and rng.random() < 0.25:
@@ -286,14 +292,29 @@ def _outcome(E, r, req, http_info):
             return request
         ep.client_authentication, ep.do_post_parse_request = ca, post
         try:
-            res = ep.parse_request(dict(FILL[r["ep"]], **req), http_info)
+            fill = {"grant_type": "client_credentials"} if r.get("cc") else FILL[r["ep"]]
+            res = ep.parse_request(dict(fill, **req), http_info)
             if "seen" not in cap:
                 cap["verify_error"] = str(res)[:80]
         except Exception as e:
             cap["exc"] = e
         finally:
             del ep.client_authentication, ep.do_post_parse_request
+        if r.get("cc") and "seen" in cap:
+            # the rest of the endpoint, for real: does a token come out ?
+            try:
+                out = ep.process_request(res)
+                ra = out.get("response_args", out) if isinstance(out, dict) else out
+                cap["issued"] = "access_token" in ra
+            except Exception:
+                cap["issued"] = False
+            # forget the session the grant created (the helper cannot serve a second request of the same client)
+            sm = E.s.context.session_manager
+            for k in [k for k in list(sm.db.db.keys()) if k.startswith("client_credentials")]:
+                del sm.db.db[k]
     seen = cap.get("seen")
+    if seen is not None and "issued" in cap:
+        seen = seen + [cap["issued"]]
     e = cap.get("exc")
     if e is not None:
         if isinstance(e, UnknownClient):
@@ -423,6 +444,8 @@ def oracle(c, obs):
         if seen_by_ep is not None:
             # whoever the endpoint-specific code acts for must be the client whose credential was accepted
             who = out[1] if out[0] == "accepted" else None
+            if len(seen_by_ep) > 3 and seen_by_ep[3] and not (out[0] == "accepted" and out[2] not in ("public", "none")):
+                v.append({"cls": "token-without-credential", "grant": "client_credentials", "outcome": out, "client": r["client"]})
             if seen_by_ep[1] and out[0] == "accepted" and out[2] in ("public", "none"):
                 v.append({"cls": "unauthenticated-marked-authenticated", "method": out[2], "request_param": r.get("authflag")})
             elif seen_by_ep[1] and (who is None or seen_by_ep[0] != who or seen_by_ep[2] != who):
@@ -471,4 +494,7 @@ def corpus():
                                           rq(ep, "cB", assertion=a("corpus-claim-%s" % ep), post={"kind": "empty", "id": "cA"}),
                                           rq(ep, "cA", assertion=a("corpus-claim2-%s" % ep, kind="own_hs"), post={"kind": "empty", "id": "cB"}),
                                           rq(ep, "cF", basic={"kind": "right"}, post={"kind": "empty", "id": "nobody"})]})
+    # a client-credentials request that only names the client (no secret registered, key-only client): no credential, no token
+    out.append({"t": "hist", "reqs": [rq("token", "cC", post={"kind": "empty", "id": "cC"}, cc=True), rq("token", "cA", post={"kind": "empty", "id": "cA"}, cc=True),
+                                      rq("token", "cA", post={"kind": "right", "id": "cA"}, cc=True), rq("token", "cB", basic={"kind": "right"}, cc=True)]})
     return out
